@@ -19,6 +19,10 @@ func TestC10NeverWedges(t *testing.T) {
 		cfg := baseConfig()
 		cfg.ReconnectWaitMin = 2 * time.Millisecond
 		cfg.ReconnectWaitMax = 16 * time.Millisecond
+		effMin := cfg.ReconnectWaitMin
+		if rapid.IntRange(0, 3).Draw(rt, "noMinimumWait") == 0 {
+			cfg.ReconnectWaitMin, effMin = -1, 0 // (negative: no minimum; zero would mean the default of one second)
+		}
 		h := newH(rt, "C10", asVolatileSession(rt, sim.Options{Config: cfg}))
 		nontrivial := false
 		defer func() { h.finish(nontrivial) }()
@@ -400,8 +404,8 @@ func TestC10NeverWedges(t *testing.T) {
 					h.Failf("ReadBackoff(%v) returned nil for a non-fatal error", last.Err)
 				default:
 					want := rw
-					if want < cfg.ReconnectWaitMin {
-						want = cfg.ReconnectWaitMin
+					if want < effMin {
+						want = effMin
 					}
 					if want > cfg.ReconnectWaitMax {
 						want = cfg.ReconnectWaitMax
@@ -411,15 +415,29 @@ func TestC10NeverWedges(t *testing.T) {
 					} else if connLoss {
 						rw = want * 2
 					}
+					// the configured maximum bounds the idle (measured twice before
+					// it counts: a time budget alone is no oracle on a busy machine)
+					const slack = 600 * time.Millisecond
 					select {
 					case <-ch:
-					case <-time.After(want + 2*time.Second):
-						h.Failf("ReadBackoff(%v): the channel did not close within %v + 2 s", last.Err, want)
+					case <-time.After(cfg.ReconnectWaitMax + slack):
+						again := time.Now()
+						select {
+						case <-h.Client.ReadBackoff(last.Err):
+						case <-time.After(cfg.ReconnectWaitMax + slack):
+						}
+						if d := time.Since(again); d >= cfg.ReconnectWaitMax+slack {
+							h.Failf("ReadBackoff(%v): the channel did not close within %v, twice, with ReconnectWaitMin %v and ReconnectWaitMax %v", last.Err, cfg.ReconnectWaitMax+slack, cfg.ReconnectWaitMin, cfg.ReconnectWaitMax)
+						}
+						select {
+						case <-ch:
+						case <-time.After(2 * time.Second):
+						}
 					}
 					// (an attempt which dies behind the handshake may have been a
 					// success when nothing was to be resent: the ramp-up starts over)
 					if el := time.Since(start); connLoss && resendFails == 0 && el < want-500*time.Microsecond {
-						h.Failf("ReadBackoff(%v): the channel closed after %v, the documented idle is at least %v (min %v, max %v, %d-th consecutive failure)", last.Err, el, want, cfg.ReconnectWaitMin, cfg.ReconnectWaitMax, round)
+						h.Failf("ReadBackoff(%v): the channel closed after %v, the documented idle is at least %v (min %v, max %v, %d-th consecutive failure)", last.Err, el, want, effMin, cfg.ReconnectWaitMax, round)
 					}
 				}
 				_ = dials
